@@ -259,6 +259,73 @@ func (c *Ctx) lookupFactsBySim(rule, tname string, fd *ast.FuncDecl, formats []s
 		c.ob(rule, fmt.Sprintf("%s:comma-ok(%s)", tname, rp), fd.Pos(), ok,
 			"a map lookup answers the token without the comma-ok test: a member that does not exist yields a zero value with a nil error on the typed document, while its JSON form reports no such member")
 	}
+	// maps consulted with the token itself: a miss in one of them does not end the search while another one has
+	// not been asked (every path that knows M1 has no such member also asks M2, or asked it before)
+	tokenMaps := map[string]bool{}
+	mapsOn := func(p spath) (asked map[string]bool, missed map[string]bool) {
+		asked, missed = map[string]bool{}, map[string]bool{}
+		see := func(v sval, neg bool, isCond bool) {
+			walk(v, func(x sval) {
+				var mx, mi sval
+				switch y := x.(type) {
+				case svHas:
+					mx, mi = y.x, y.i
+				case svIndex:
+					mx, mi = y.x, y.i
+				default:
+					return
+				}
+				if rp, ok := recvPath(mx); ok && isTok(mi) {
+					asked[rp] = true
+					tokenMaps[rp] = true
+				}
+			})
+			if h, ok := v.(svHas); ok && isCond && neg {
+				if rp, ok := recvPath(h.x); ok && isTok(h.i) {
+					missed[rp] = true
+				}
+			}
+		}
+		for _, cd := range p.conds {
+			if !cd.loop {
+				see(cd.v, cd.neg, true)
+				// len(M) == 0: an empty map has been asked, in effect
+				if b, ok := cd.v.(svBin); ok && b.op == token.NEQ && cd.neg {
+					if lc, isCall := b.x.(svCall); isCall && lc.callee == nil && len(lc.args) == 1 && lc.call != nil && c.isBuiltin(lc.call, "len") {
+						if k, isConst := b.y.(svConst); isConst && k.v.String() == "0" {
+							if rp, ok := recvPath(lc.args[0]); ok {
+								asked[rp] = true
+							}
+						}
+					}
+				}
+			}
+		}
+		for _, r := range p.rets {
+			see(r, false, false)
+		}
+		return
+	}
+	type askInfo struct{ asked, missed map[string]bool }
+	var infos []askInfo
+	for _, p := range paths {
+		a, m := mapsOn(p)
+		infos = append(infos, askInfo{a, m})
+	}
+	if len(tokenMaps) > 1 {
+		okMaps, whyMaps := true, ""
+		for _, inf := range infos {
+			for m1 := range inf.missed {
+				for m2 := range tokenMaps {
+					if m2 != m1 && !inf.asked[m2] && okMaps {
+						okMaps = false
+						whyMaps = "on some path the member is known to be missing from " + m1 + " and " + m2 + " is never asked: a member held by " + m2 + " is not found on the typed document when " + m1 + " is not empty"
+					}
+				}
+			}
+		}
+		c.ob(rule, tname+":maps-fall-through", fd.Pos(), okMaps, whyMaps)
+	}
 	// fall-through: the longest chain of consultations is the order in which the components are tried
 	var longest []consult
 	for _, p := range paths {
